@@ -193,6 +193,29 @@ Theorem C15_boundary_pcd_fallback_without_ties :
 Proof. exact pcd_boundary_kept_tiefree. Qed.
 Print Assumptions C15_boundary_pcd_fallback_without_ties.
 
+(* ---- boundary clause for the crowding entropy, end to end (log2 an oracle table with the sign behaviour of log2, as in C13_ce_wellformed):
+   the vector is finite outside the first and last row of every objective's sorted order, so every tie-break keeps a holder of the minimum
+   and of the maximum of every non-constant objective when >= 2 x n_obj members are kept ---- *)
+From PV Require Import Proofs.CeP Proofs.CeBoundaryP.
+Theorem C15_boundary_ce :
+  forall (feq : eq -> eq -> bool) (lg : list (eq * eq)),
+    (forall arg y, lookup_log (X := EQx) feq lg arg = Some y ->
+       (forall q, arg = Fin q -> (0 < q)%Q -> (q <= 1)%Q -> exists l, y = Fin l /\ (l <= 0)%Q) /\
+       (forall q, arg = Fin q -> (q == 0)%Q -> y = NInf)) ->
+    forall (F : list (list eq)) m crowd (front : list nat) quota sel perm sv,
+      fin_matrix F m -> 0 < m -> length (hd [] F) = m ->
+      calc_crowding_entropy (X := EQx) feq lg F = Some crowd ->
+      length front = length F -> length perm = length crowd -> NoDup perm -> Forall (fun i => i < length crowd) perm ->
+      pick crowd perm = Some sv -> sorted_by (N := EQn) true sv = true -> pick front (firstn quota perm) = Some sel ->
+      2 * m <= quota ->
+      forall j, j < m -> (exists a b, In a (col (X := EQx) F j) /\ In b (col (X := EQx) F j) /\ eltb a b = true) ->
+      exists i0 i1, i0 < length F /\ i1 < length F /\
+        (forall i, i < length F -> fle (nth i0 (col (X := EQx) F j) ENaN) (nth i (col (X := EQx) F j) ENaN) /\
+                                   fle (nth i (col (X := EQx) F j) ENaN) (nth i1 (col (X := EQx) F j) ENaN)) /\
+        (forall x, nth_error front i0 = Some x -> In x sel) /\ (forall x, nth_error front i1 = Some x -> In x sel).
+Proof. exact ce_boundary_kept. Qed.
+Print Assumptions C15_boundary_ce.
+
 (* ---- binary64: the comparisons of IEEE doubles form a strict weak order on all values but NaN, infinities included
    (Base/NumFOrd.v, Flocq), so the cut theorems hold for the crowding vectors the code actually computes ---- *)
 From Coq Require Import PrimFloat.
